@@ -1658,7 +1658,10 @@ func (g *Gen) replacePreamble() {
 						}
 						body = buildBurnBody(0, crypto.Keccak256([]byte(mintDenom)), g.rand32(), big.NewInt(int64(100+n)), dep)
 					}
-					orig := buildMessage(0, src, g.domain(), uint64(n), sender, g.rand32(), g.rand32(), body)
+					// the header version of the attested original is NOT checked by the replace handlers; the replacement is
+					// stamped with the local version whatever the original carried
+					origVer := []uint32{0, 1, 0, 2, 0, 0xffffffff}[n%6]
+					orig := buildMessage(origVer, src, g.domain(), uint64(n), sender, g.rand32(), g.rand32(), body)
 					att := g.attest(orig, attOpts{})
 					ecr := ecrEntries(orig, att)
 					g.tx("ReplaceMessage", newKV().set("from", hs(from)).set("message", hx(orig)).set("attestation", hx(att)).
@@ -1766,7 +1769,11 @@ func scnReplace(g *Gen, budget int, arg string) {
 			} else {
 				body = g.randBytes(g.pick(200))
 			}
-			orig := buildMessage(0, src, g.domain(), uint64(g.pick(1000)), sender, g.rand32(), g.rand32(), body)
+			origVer := uint32(0)
+			if g.chance(0.25) {
+				origVer = []uint32{1, 2, 0xffffffff}[g.pick(3)]
+			}
+			orig := buildMessage(origVer, src, g.domain(), uint64(g.pick(1000)), sender, g.rand32(), g.rand32(), body)
 			if g.chance(0.05) {
 				orig = orig[:g.pick(116)]
 			}
